@@ -483,6 +483,11 @@ func (env *rEnv) eval(n *rNode) Value {
 			if p, ok := v.(VPtr); ok {
 				return e.load(env.st(), p)
 			}
+			if sv, ok := v.(VSym); ok {
+				// a parameter that used to be passed by pointer and is now passed by value: `*p` in a contract means
+				// the value either way
+				return sv
+			}
 			return env.fail("dereference of non-pointer %s", nodeText(n.Args[0]))
 		}
 	case "binary":
